@@ -425,6 +425,7 @@ func checkC10(o options) int {
 	unknownCount := 0
 	seenFinal := map[string]bool{}
 	unownedRules := map[string]bool{}
+	unreduced := false
 	for _, f := range finals {
 		if strings.Contains(f.class, "(unreproduced)") && f.v != nil {
 			// the worker saw two different results for the same texts in two of its
@@ -435,9 +436,11 @@ func checkC10(o options) int {
 			if f.v.Canonical {
 				args = append(args, "--canonical")
 			}
-			eout, eerr := run(scratch, nil, inst.bin, args...)
-			if c := escalatedClass(eout); eerr == nil && c != "" {
+			eout, eerr, tooLong := runBounded(15*time.Minute, scratch, inst.bin, args...)
+			if c := escalatedClass(eout); eerr == nil && c != "" && !tooLong {
 				f.class, f.replay = c, rf
+			} else if tooLong {
+				logf("worker %d reported %s in its session %d; the witness search over its history was stopped after 15 min", f.v.Worker, f.class, f.v.Index)
 			}
 			if seenFinal[f.class] {
 				continue
@@ -457,9 +460,20 @@ func checkC10(o options) int {
 				if f.v.Canonical {
 					args = append(args, "--canonical")
 				}
-				eout, eerr := run(scratch, nil, inst.bin, args...)
+				eout, eerr, tooLong := runBounded(15*time.Minute, scratch, inst.bin, args...)
 				c := escalatedClass(eout)
-				if (eerr != nil || c == "") && unownedSchedule {
+				if tooLong {
+					// The worker saw two different results for the same texts deep into
+					// its run, and rebuilding a witness from its whole history (one
+					// fresh-process replay of tens of thousands of sessions per
+					// candidate) does not fit the budget. The observation stands: it is
+					// published with both results, flagged not replayable.
+					logf("worker %d reported %s in its session %d; the witness search over its history was stopped after 15 min", f.v.Worker, f.class, f.v.Index)
+					f.class = "disagree-unreduced|" + kindRule(f.class)
+					unownedRules[kindRule(f.class)] = true
+					f.nonReplayable = true
+					unreduced = true
+				} else if (eerr != nil || c == "") && unownedSchedule {
 					f.class = "disagree-unowned-schedule|" + strings.TrimPrefix(f.class, "disagree:")
 					f.nonReplayable = true
 				} else if eerr != nil || c == "" {
@@ -505,7 +519,9 @@ func checkC10(o options) int {
 				rp["class"] = f.class
 				rp["replayable"] = false
 				rp["note"] = "two executions of the same texts gave different results (witness: rendering_first / rendering_later), found while library code was running goroutines of its own; the simulator does not own that schedule, so this file documents the finding but need not reproduce it"
-				if !unownedSchedule {
+				if unreduced && strings.HasPrefix(f.class, "disagree-unreduced|") {
+					rp["note"] = "two executions of the same texts in one process gave different results (witness: rendering_first / rendering_later), observed deep into a worker's run; rebuilding and reducing a witness from the worker's whole history did not finish within 15 minutes and was stopped. The file documents the observation (worker, session index and VERIF_SEED identify the history); it need not reproduce from the one session it contains"
+				} else if !unownedSchedule {
 					rp["note"] = "two executions of the same texts in one process gave different results (witness: rendering_first / rendering_later), and neither the session alone nor the worker's whole history re-creates the difference in a fresh process: the result depends on a source of nondeterminism that none of the simulator's seams owns (heap addresses, runtime-random state, ...). The file documents the observation; it need not reproduce"
 				}
 				rp["census"] = census
@@ -667,7 +683,7 @@ func checkC10(o options) int {
 
 // kindRule reduces a class to "<kind>|rule=<rule>" (no site list).
 func kindRule(class string) string {
-	c := strings.TrimPrefix(strings.TrimPrefix(class, "disagree-unowned-source|"), "disagree:")
+	c := strings.TrimPrefix(strings.TrimPrefix(strings.TrimPrefix(class, "disagree-unowned-source|"), "disagree-unreduced|"), "disagree:")
 	if i := strings.Index(c, "|site="); i >= 0 {
 		c = c[:i]
 	}
